@@ -467,7 +467,8 @@ theorem derivesS_negs {rest : List Stage} {ts : List T} {e : E} (h : DerivesS re
     exact .neg ih
 
 theorem negAst_negs {e₀ : E} (h0 : ∀ x, e₀ ≠ .neg x) : ∀ k n,
-    E.toAst.negAst (negs k e₀) n = if n % 2 = (k + 1) % 2 then .oper "*" e₀.toAst (.num "-1") else e₀.toAst := by
+    E.toAst.negAst (negs k e₀) n = if n % 2 = (k + 1) % 2 then .oper "*" e₀.toAst (.num "-1")
+      else .oper "*" (.oper "*" e₀.toAst (.num "-1")) (.num "-1") := by
   intro k
   induction k with
   | zero =>
@@ -485,21 +486,26 @@ theorem negAst_negs {e₀ : E} (h0 : ∀ x, e₀ ≠ .neg x) : ∀ k n,
     have : ((n + 1) % 2 = (k + 1) % 2) ↔ (n % 2 = (k + 1 + 1) % 2) := by omega
     simp only [this]
 
-/-- the Go encoding of `n` minus signs in front of a union expression: `x * -1` iff `n` is odd -/
+/-- the Go encoding of `n` minus signs in front of a union expression: `x * -1` iff `n` is odd,
+`(x * -1) * -1` for an even `n ≥ 1` (the operand is still converted to a number), `x` itself for
+`n = 0` -/
 theorem toAst_negs {e₀ : E} (h0 : ∀ x, e₀ ≠ .neg x) (n : Nat) :
-    (negs n e₀).toAst = if n % 2 = 1 then .oper "*" e₀.toAst (.num "-1") else e₀.toAst := by
+    (negs n e₀).toAst = if n % 2 = 1 then .oper "*" e₀.toAst (.num "-1")
+      else if n = 0 then e₀.toAst else .oper "*" (.oper "*" e₀.toAst (.num "-1")) (.num "-1") := by
   cases n with
   | zero => simp [negs]
   | succ k =>
     simp only [negs, E.toAst]
     rw [negAst_negs h0 k 1]
     have : (1 % 2 = (k + 1) % 2) ↔ ((k + 1) % 2 = 1) := by omega
-    simp only [this]
+    simp only [this, Nat.add_one_ne_zero, if_false]
 
-theorem skipMinus_sound {cfg : PCfg} : ∀ (f : Nat) (st : PState) (b m : Bool) (st' : PState),
+/-- `skipMinus_sound` with the link between the first token and the number of signs consumed: at
+least one sign is consumed iff the run starts at a `-` token (`signed` in `parseChain`) -/
+theorem skipMinus_sound_signed {cfg : PCfg} : ∀ (f : Nat) (st : PState) (b m : Bool) (st' : PState),
     skipMinus f st b = .ok (m, st') →
     ∃ n, Consumes cfg st (List.replicate n (T.op "-")) st' ∧ m = (b != decide (n % 2 = 1)) ∧
-      (st'.s.typ == .minus) = false := by
+      (st'.s.typ == .minus) = false ∧ (st.s.typ == .minus) = decide (n ≠ 0) := by
   intro f
   induction f with
   | zero => intro st b m st' h; simp [skipMinus] at h
@@ -509,8 +515,8 @@ theorem skipMinus_sound {cfg : PCfg} : ∀ (f : Nat) (st : PState) (b m : Bool) 
     split at h
     · rename_i hmin
       obtain ⟨st1, h1, h⟩ := bind_ok h
-      obtain ⟨n, hc, hm, hs⟩ := ih _ _ _ _ h
-      refine ⟨n+1, ?_, ?_, hs⟩
+      obtain ⟨n, hc, hm, hs, _⟩ := ih _ _ _ _ h
+      refine ⟨n+1, ?_, ?_, hs, by simpa using hmin⟩
       · rw [List.replicate_succ]
         exact .op (by simpa [tokMatches] using hmin) h1 hc
       · rw [hm]
@@ -521,10 +527,17 @@ theorem skipMinus_sound {cfg : PCfg} : ∀ (f : Nat) (st : PState) (b m : Bool) 
           cases b <;> simp [h2, this]
     · rename_i hmin
       simp only [pure, Except.pure, Except.ok.injEq, Prod.mk.injEq] at h
-      refine ⟨0, ?_, ?_, ?_⟩
+      refine ⟨0, ?_, ?_, ?_, by simpa using hmin⟩
       · rw [← h.2]; exact .nil _
       · simp [h.1]
       · rw [← h.2]; simpa using hmin
+
+theorem skipMinus_sound {cfg : PCfg} (f : Nat) (st : PState) (b m : Bool) (st' : PState)
+    (h : skipMinus f st b = .ok (m, st')) :
+    ∃ n, Consumes cfg st (List.replicate n (T.op "-")) st' ∧ m = (b != decide (n % 2 = 1)) ∧
+      (st'.s.typ == .minus) = false := by
+  obtain ⟨n, hc, hm, hs, _⟩ := skipMinus_sound_signed (cfg := cfg) f st b m st' h
+  exact ⟨n, hc, hm, hs⟩
 
 /-- what a stage list's run returns: a consumed chain, a derivation of it, the tree of the derivation -/
 def SoundAt (cfg : PCfg) (S : List Stage) : Prop :=
@@ -591,12 +604,14 @@ theorem parseChain_sound {cfg : PCfg} : ∀ (S : List Stage), okStages S = true 
         obtain ⟨⟨minus, st1⟩, h1, h⟩ := bind_ok h
         obtain ⟨⟨x, st2⟩, h2, h⟩ := bind_ok h
         simp only [pure, Except.pure, Except.ok.injEq, Prod.mk.injEq] at h
-        obtain ⟨n, hcn, hm, _⟩ := skipMinus_sound (cfg := cfg) _ _ _ _ _ h1
+        obtain ⟨n, hcn, hm, _, hsg⟩ := skipMinus_sound_signed (cfg := cfg) _ _ _ _ _ h1
         obtain ⟨ts₀, e₀, hc0, hd0, hx⟩ := ihS hokr _ _ _ _ h2
         refine ⟨List.replicate n (T.op "-") ++ ts₀, negs n e₀, ?_, derivesS_negs hd0 n, ?_⟩
         · rw [← h.2]; exact hcn.append hc0
-        · rw [toAst_negs (derivesS_not_neg hd0 hnu), ← h.1, hm, hx]
-          by_cases hn : n % 2 = 1 <;> simp [hn]
+        · rw [toAst_negs (derivesS_not_neg hd0 hnu), ← h.1, hm, hx, hsg]
+          by_cases hn : n % 2 = 1
+          · simp [hn]
+          · by_cases hz : n = 0 <;> simp [hn, hz]
 
 /-- soundness at tier `k` of the XPath grammar: running the suffix of the computed stage list that
 starts at tier `k` consumes a chain which `Spec.Grammar.Derives` at tier `k`, and returns its tree -/
@@ -890,8 +905,10 @@ example : Derives 0 [.op "-", .atom (nm "a"), .op "|", .atom (nm "b")]
     parseText "-a | b" = some (.oper "*" (.oper "|" (nm "a") (nm "b")) (.num "-1")) :=
   ⟨refTier_sound (f := 40) (by decide), by simp [E.toAst, E.toAst.negAst], by decide +kernel⟩
 
-/-- `- - a` cancels, `a - - b` is `a - (-b)`, `a * - b` multiplies by the negation -/
-example : parseText "- - a" = some (nm "a") ∧
+/-- `- - a` is `(a * -1) * -1` (the pair cancels numerically, the operand is still converted to a
+number), `a - - b` is `a - (-b)`, `a * - b` multiplies by the negation -/
+example : parseText "- - a" = some (.oper "*" (.oper "*" (nm "a") (.num "-1")) (.num "-1")) ∧
+    parseText "- - - a" = some (.oper "*" (nm "a") (.num "-1")) ∧
     parseText "a - - b" = some (.oper "-" (nm "a") (.oper "*" (nm "b") (.num "-1"))) ∧
     parseText "a * - b" = some (.oper "*" (nm "a") (.oper "*" (nm "b") (.num "-1"))) ∧
     parseText "a = b < c" = some (.oper "=" (nm "a") (.oper "<" (nm "b") (nm "c"))) ∧
